@@ -69,15 +69,6 @@ var c19KnownNilSites = map[string]bool{
 	"lib/query/processor.go:Processor.ExecuteStatement:err.Error": true,
 }
 
-func verifRoot() string {
-	if r := os.Getenv("VERIF_ROOT"); r != "" {
-		return r
-	}
-	if b := os.Getenv("VERIF_BUILD"); b != "" {
-		return filepath.Dir(b)
-	}
-	return "/verif"
-}
 
 // the source tree the harness is built against: the `replace` line of harness/go.mod
 func repoPath(root string) string {
